@@ -505,6 +505,12 @@ pub fn grid_cases(takers: &[usize]) -> Vec<(usize, usize, usize, usize, usize)> 
                         v.push((oi, pos, pc, route, oc));
                     }
                 }
+                // every operand uniformly one special value (all-zero vectors, all-NaN, all-huge ...): the
+                // degenerate branches (fallbacks of normalize_or_*, any_orthogonal_vector, slerp ...) that
+                // independent per-lane sampling almost never enters
+                for li in 0..NUM_F_LATTICE {
+                    v.push((oi, pos, pc, (pc + li) % ROUTES.len(), 3 + li));
+                }
             }
         }
     }
@@ -514,7 +520,12 @@ pub fn grid_cases(takers: &[usize]) -> Vec<(usize, usize, usize, usize, usize)> 
 pub fn gen_grid_program(seed: u64, case: (usize, usize, usize, usize, usize), idx: u64) -> Program {
     let (oi, pos, pc, route, oc) = case;
     let mut rng = Rng::new(seed, "c08-grid", idx);
-    let cls = [Cls::Ordinary, Cls::Mix, Cls::RandomBits][oc];
+    let cls = match oc {
+        0 => Cls::Ordinary,
+        1 => Cls::Mix,
+        2 => Cls::RandomBits,
+        k => Cls::Lattice(k - 3),
+    };
     let op = &OPS[oi];
     let mut g = Gen { rng: &mut rng, next_id: 0, reg_ty: Vec::new(), init: Vec::new(), cls };
     let args: Vec<RegId> = op.args.iter().map(|t| g.fresh(t, op)).collect();
